@@ -8,6 +8,7 @@
 package c06
 
 import (
+	"bytes"
 	"fmt"
 	"math/rand"
 	"sort"
@@ -43,6 +44,7 @@ type ccase struct {
 	PossDup   string // "" Y N
 	Routing   bool   // carry optional routing fields
 	BadBody   string // "" | missing-required | unknown-tag  (only with Dict)
+	Misframed bool   // BodyLength disagrees with the content (the frame is still cut at the real trailer)
 }
 
 func (c ccase) defects() string {
@@ -63,6 +65,9 @@ func (c ccase) defects() string {
 	}
 	if c.BadBody != "" {
 		d = append(d, "body="+c.BadBody)
+	}
+	if c.Misframed {
+		d = append(d, "9=wrong")
 	}
 	return strings.Join(d, ",")
 }
@@ -106,6 +111,9 @@ func genCase(r *rand.Rand) ccase {
 	c.Routing = r.Intn(3) == 0
 	if c.Dict && c.Kind == "D" && r.Intn(3) == 0 {
 		c.BadBody = core.Pick(r, "missing-required", "unknown-tag")
+	}
+	if nd == 0 && c.BadBody == "" && c.V34 == "ok" && r.Intn(3) == 0 {
+		c.Misframed = true
 	}
 	return c
 }
@@ -224,6 +232,17 @@ func buildMessage(c ccase, l *lab.Lab, p *lab.Peer, exp int) (raw []byte, seqVal
 	}
 	raw = fixwire.Build(begin, rest)
 	inbound, _ = fixwire.Scan(raw, false)
+	if c.Misframed {
+		// BodyLength one or two short: the stream framer still cuts the frame at the real trailer, the message
+		// parser finds the disagreement
+		if n, ok := inbound.Int(9); ok && n > 12 {
+			old := []byte(fmt.Sprintf("\x019=%d\x01", n))
+			neu := []byte(fmt.Sprintf("\x019=%d\x01", n-1-exp%2))
+			if len(old) == len(neu) {
+				raw = bytes.Replace(raw, old, neu, 1)
+			}
+		}
+	}
 	return
 }
 
@@ -282,6 +301,9 @@ func expected(c ccase) (accept []string, anyDefect bool) {
 	if c.BadBody != "" {
 		accept = append(accept, "validation")
 	}
+	if c.Misframed {
+		accept = append(accept, "dropped")
+	}
 	return accept, len(accept) > 0
 }
 
@@ -300,6 +322,8 @@ func classify(c ccase, rx reaction, inbound fixwire.Fields) string {
 		return nil
 	}
 	switch {
+	case c.Misframed && t == "" && rx.Adv == 0 && len(rx.Callbacks) == 0:
+		return "dropped"
 	case t == "5" && !rx.LoggedOn:
 		return "logout"
 	case t == "35" && !rx.LoggedOn:
